@@ -346,13 +346,30 @@ func checkSet(w *mon.W, c *mon.Case, routes []string, exhaustiveFamily bool) {
 		}
 		accepted = true
 		w.Count("registration_orders", 1)
+		// half of the engines serve all probes with one recycled context (as a keep-alive
+		// connection does); parameter values handed out for a request are Go strings and must
+		// still equal the matched substring after the context went on to other requests
+		reuse := r.Bool()
+		var shared *app.RequestContext
+		var heldVals, heldWant []string
+		var heldPath string
 		for _, p := range ps {
 			for _, m := range []string{"GET", "POST", "PUT"} {
 				if m != "GET" && !r.Chance(4) {
 					continue
 				}
 				hit.idx = -1
-				ctx := e.NewContext()
+				var ctx *app.RequestContext
+				if reuse {
+					if shared == nil {
+						shared = e.NewContext()
+					} else {
+						shared.ResetWithoutConn()
+					}
+					ctx = shared
+				} else {
+					ctx = e.NewContext()
+				}
 				ctx.Request.SetRequestURI(p)
 				ctx.Request.Header.SetMethod(m)
 				ctx.Request.SetHost("h")
@@ -380,6 +397,31 @@ func checkSet(w *mon.W, c *mon.Case, routes []string, exhaustiveFamily bool) {
 						fail = fmt.Sprintf("FullPath %q, want %q", ctx.FullPath(), routes[got])
 					} else {
 						w.Count("matched_probes", 1)
+					}
+					if fail == "" && len(gv) > 0 {
+						// the values held from an earlier request of this context
+						if fmt.Sprint(heldVals) != fmt.Sprint(heldWant) {
+							fail = fmt.Sprintf("parameter values %q obtained for %q changed to %q after the context served %q", heldWant, heldPath, heldVals, p)
+						} else if heldVals != nil {
+							w.Count("held_param_values_rechecked", 1)
+						}
+						if reuse {
+							heldVals, heldWant, heldPath = gv, want.values, p
+						}
+						// a handler that rewrites the request URI afterwards (proxy style)
+						if fail == "" && r.Chance(3) {
+							ctx.Request.SetRequestURI("/" + strings.Repeat("~", len(p)))
+							ctx.Request.URI().Path()
+							var gv2 []string
+							for _, pp := range ctx.Params {
+								gv2 = append(gv2, pp.Value)
+							}
+							if fmt.Sprint(gv2) != fmt.Sprint(want.values) || fmt.Sprint(gv) != fmt.Sprint(want.values) {
+								fail = fmt.Sprintf("parameter values changed from %q to %q when the request URI was rewritten after routing", want.values, gv2)
+							} else {
+								w.Count("param_values_rechecked_after_uri_rewrite", 1)
+							}
+						}
 					}
 				}
 				if want == nil {
